@@ -64,6 +64,22 @@ pub struct ChainCfg {
     /// cancellation while it shuts down
     #[serde(default)]
     pub own_clients: bool,
+    /// max_in_flight_requests of every hop's client (0 = the default configuration): with 1, the
+    /// call that is abandoned is also the one that fills the client to its limit
+    #[serde(default)]
+    pub client_mif: usize,
+    /// the head caller supplies the all-zero trace id (an untraced process) instead of 0xABCD
+    #[serde(default)]
+    pub zero_trace_id: bool,
+}
+impl ChainCfg {
+    pub fn head_tid(&self) -> u128 {
+        if self.zero_trace_id {
+            0
+        } else {
+            0xABCD
+        }
+    }
 }
 
 // ---------------------------------------------------------------------------------------------
@@ -399,7 +415,11 @@ impl World {
         let mut dispatches = vec![];
         for (i, k) in cfg.hops.iter().enumerate() {
             let (ct, st) = mk_hop(*k, i, &log, &mut pipes, &mut gates);
-            let nc = client::new::<u32, u32, CT>(client::Config::default(), ct);
+            let mut ccfg = client::Config::default();
+            if cfg.client_mif > 0 {
+                ccfg.max_in_flight_requests = cfg.client_mif;
+            }
+            let nc = client::new::<u32, u32, CT>(ccfg, ct);
             clients.push(nc.client);
             dispatches.push(nc.dispatch);
             servers.push(st);
@@ -419,7 +439,7 @@ impl World {
         // head caller
         let mut ctx = context::current();
         ctx.deadline = log.t0 + Duration::from_nanos(cfg.r_ns);
-        ctx.trace_context.trace_id = tarpc::trace::TraceId::from(0xABCDu128);
+        ctx.trace_context.trace_id = tarpc::trace::TraceId::from(cfg.head_tid());
         ctx.trace_context.span_id = tarpc::trace::SpanId::from(0x1111u64);
         ctx.trace_context.sampling_decision = tarpc::trace::SamplingDecision::Sampled;
         let head = clients[0].clone();
